@@ -22,6 +22,8 @@ ScDesc ==
       [] Scenario = "multi"   -> [funcs |-> <<MapF("f", One("a"), <<"y", "y2">>, One(Spec1("a", One("i"))), One("i")),
                                               MapF("g", One("y2"), One("w"), One(Spec1("y2", One("i"))), One("i"))>>]
       [] Scenario = "chain"   -> [funcs |-> <<PlainF("f", One("s"), One("y")), PlainF("g", One("y"), One("w"))>>]
+      (* functions without MapSpec, the first with two outputs (its result goes through the output picker once) *)
+      [] Scenario = "multiplain" -> [funcs |-> <<PlainF("f", One("s"), <<"y", "y2">>), PlainF("g", <<"y", "y2">>, One("w"))>>]
 ScInputs ==
     CASE Scenario = "zip"     -> <<<<"a", InArr("a", One(3))>>, <<"b", InArr("b", One(3))>>>>
       [] Scenario = "outer"   -> <<<<"a", InArr("a", One(2))>>, <<"b", InArr("b", One(2))>>>>
@@ -31,6 +33,7 @@ ScInputs ==
       [] Scenario = "twogen"  -> One(<<"a", InArr("a", One(2))>>)
       [] Scenario = "multi"   -> One(<<"a", InArr("a", One(2))>>)
       [] Scenario = "chain"   -> One(<<"s", Atom("@s")>>)
+      [] Scenario = "multiplain" -> One(<<"s", Atom("@s")>>)
 
 Init == MapInit(ScDesc, ScInputs) /\ hist = <<>> /\ nstarted = [n \in {} |-> 0]
 
